@@ -317,9 +317,7 @@ def run(ctx):
     if not ctx.violations and ctx.evaluations >= 300:
         need = ["path:" + f for f in mm.QUESTIONED + ("plain",)] + ["near:" + k for k in mm.NEAR_KINDS] + \
                ["form:object", "form:dict", "version:2.0", "version:2.1", "type:file", "type:observed-data", "type:indicator"]
-        for k in need:
-            if ctx.classes.get(k, 0) < max(1, ctx.evaluations // 200):
-                raise core.HarnessError("generator unhealthy: class %s seen %d times in %d cases" % (k, ctx.classes.get(k, 0), ctx.evaluations))
+        core.health(ctx, need, share=0.005)
 
 
 def replay(case):
